@@ -809,8 +809,9 @@ def main():
     import translate_toarray
     import translate_append
     import translate_filtered
+    import translate_queries
     failed = {}
-    ERR = (Unsupported, translate_pyx.Unsupported, translate_walk.Unsupported, translate_eq.Unsupported, translate_indx.Unsupported, translate_strides.Unsupported, translate_missing.Unsupported, translate_driver.Unsupported, translate_diff.Unsupported, translate_validate.Unsupported, translate_common.Unsupported, translate_slices.Unsupported, translate_mask.Unsupported, translate_shift.Unsupported, translate_toarray.Unsupported, translate_append.Unsupported, translate_filtered.Unsupported,
+    ERR = (Unsupported, translate_pyx.Unsupported, translate_walk.Unsupported, translate_eq.Unsupported, translate_indx.Unsupported, translate_strides.Unsupported, translate_missing.Unsupported, translate_driver.Unsupported, translate_diff.Unsupported, translate_validate.Unsupported, translate_common.Unsupported, translate_slices.Unsupported, translate_mask.Unsupported, translate_shift.Unsupported, translate_toarray.Unsupported, translate_append.Unsupported, translate_filtered.Unsupported, translate_queries.Unsupported,
            StopIteration, SyntaxError, KeyError, IndexError, AttributeError)
 
     def piece(name, path, gen, stub_import=None):
@@ -846,6 +847,7 @@ def main():
     piece("to_array", "ToArrayGen.lean", lambda: translate_toarray.generate(rd("iindexes.py")), "CatiiModel.IIndex")
     piece("append", "AppendGen.lean", lambda: translate_append.generate(rd("iindexes.py")), "CatiiModel.IIndex")
     piece("filtered", "FilteredGen.lean", lambda: translate_filtered.generate(rd("iindexes.py")), "CatiiModel.IIndex")
+    piece("queries", "QueriesGen.lean", lambda: translate_queries.generate(rd("iindexes.py")), "CatiiModel.IIndex")
     return 3 if failed else 0
 
 
